@@ -22,7 +22,7 @@ Proof.
 Qed.
 
 (* the list is not vacuous the other way round either: how many structures are proved *)
-Lemma smb_proved_count : List.length (filter cmd_safe all_cmds) = 104%nat.
+Lemma smb_proved_count : List.length (filter cmd_safe all_cmds) = 106%nat.
 Proof. vm_compute. reflexivity. Qed.
 
 Lemma find_by_name_in cmds n c : find_by_name cmds n = Some c -> In c cmds.
